@@ -164,7 +164,14 @@ func (m *model) apply(st *state, r *opRec) []*state {
 
 		return []*state{st}
 	case opClear:
-		return []*state{{}}
+		// "Hit/Miss count Gets exactly": since creation or since the last
+		// Clear is left open by the statement (the interface comment says
+		// Clear clears statistics): both readings are kept.
+		if st.hit == 0 && st.miss == 0 {
+			return []*state{{}}
+		}
+
+		return []*state{{}, {hit: st.hit, miss: st.miss}}
 	case opStats:
 		if r.stats.Count != len(st.entries) || r.stats.Size != st.size() ||
 			r.stats.Hit != st.hit || r.stats.Miss != st.miss {
